@@ -321,7 +321,7 @@ func RunWorker(cfg WorkerConfig) int {
 		tape := NewTape(runSeed)
 		ctx.Shrink = false
 		Overrun = ""
-		res := cfg.Prop.Run(ctx, tape)
+		res := RunGuarded(func() RunResult { return cfg.Prop.Run(ctx, tape) })
 		part.Runs++
 
 		if Overrun != "" {
@@ -445,7 +445,9 @@ func RunWorker(cfg WorkerConfig) int {
 		final := res
 		ctx.Shrink = true
 
-		runOnce := func(c []uint32) RunResult { return cfg.Prop.Run(ctx, ReplayTape(c)) }
+		runOnce := func(c []uint32) RunResult {
+			return RunGuarded(func() RunResult { return cfg.Prop.Run(ctx, ReplayTape(c)) })
+		}
 
 		if es, ok := cfg.Prop.(interface{ ExternalShrink() bool }); ok && es.ExternalShrink() {
 			// verdicts that a process reports only once (race detector): every candidate runs in a fresh process.
@@ -867,7 +869,12 @@ func RunReplay(p Property, path, knownFile string) int {
 
 	for i := 0; i < attempts; i++ {
 		ctx := &Ctx{Tier: rp.Tier, Stats: map[string]int64{}, Known: known, Avoid: avoid, KS: ks, Shrink: true, Aux: map[string]any{}}
-		last = p.Run(ctx, ReplayTape(rp.Tape))
+		Overrun = ""
+		last = RunGuarded(func() RunResult { return p.Run(ctx, ReplayTape(rp.Tape)) })
+
+		if Overrun != "" {
+			last.Violation = &Violation{Prop: "C07", Class: "hang-busy", Sig: "a library call made to observe the tree does not return", Msg: Overrun}
+		}
 		promoteSoft(&last, ks)
 
 		for _, f := range ctx.Cleanups {
@@ -952,7 +959,7 @@ func RunProbe(p Property, tapeFile, knownFile, tier string) int {
 	known, avoid := knownMaps(kf, p.ID())
 	ks, _ := NewKnownSet(kf)
 	ctx := &Ctx{Tier: tier, Stats: map[string]int64{}, Known: known, Avoid: avoid, KS: ks, Shrink: true, Aux: map[string]any{}}
-	r := p.Run(ctx, ReplayTape(tape))
+	r := RunGuarded(func() RunResult { return p.Run(ctx, ReplayTape(tape)) })
 
 	for _, f := range ctx.Cleanups {
 		f()
